@@ -249,13 +249,13 @@ partial def loop (h : IO.FS.Stream) (d : DS) : IO Unit := do
     | ["add", id, typ] =>
       let id := id.toNat!
       if (d.get id).isSome || !(typ == "tcp" || typ == "unix") then bad else
-      let d := stepsE (newE d { id, c := mk .add, unix := typ == "unix" } .add) id [.addCheck, .addOpen, .addTable, .addReg]
+      let d := stepsE (newE d { id, c := mk .add, unix := typ == "unix" } .add) id [.addCheck, .addP, .addOpen, .addTable, .addReg]
       say d "add" "nil" (some id)
     | ["addc", id, typ] =>
       -- the open notification closes the conn; addConn carries on: table, then a registration that fails (EBADF)
       let id := id.toNat!
       if (d.get id).isSome || !(typ == "tcp" || typ == "unix") then bad else
-      let d := stepsE (newE d { id, c := mk .add, unix := typ == "unix" } .add) id [.addCheck, .addOpen]
+      let d := stepsE (newE d { id, c := mk .add, unix := typ == "unix" } .add) id [.addCheck, .addP, .addOpen]
       let d := closeE d id .nil
       let d := stepsE d id [.addTable, .addReg]
       match d.get id with
@@ -269,8 +269,8 @@ partial def loop (h : IO.FS.Stream) (d : DS) : IO Unit := do
       let d := stepE d id .addCheck
       match d.get id with
       | some e =>
-        if e.c.add == 5 then say d "addx" "closed" (some id)
-        else say (stepsE d id [.addOpen, .addTable, .addReg]) "addx" "nil" (some id)
+        if e.c.add == 6 then say d "addx" "closed" (some id)
+        else say (stepsE d id [.addP, .addOpen, .addTable, .addReg]) "addx" "nil" (some id)
       | none => bad
     | ["dialx", id] =>
       -- epoll registration fails: DialAsync returns the error, which is the one report; nobody ever sees the conn
@@ -340,7 +340,7 @@ partial def loop (h : IO.FS.Stream) (d : DS) : IO Unit := do
         let kind := ws[2]!
         if kind == "ok" || kind == "okpeer" then
           let d := stepsE (newE d { id, c := mk .dial, real := true } .dial) id [.dialStart, .armDial, .kconnect none, .dialed]
-          let d := stepsE (newE d { id := id + 1000, c := mk .acc, real := true } .acc) (id + 1000) [.addCheck, .addOpen, .addTable, .addReg]
+          let d := stepsE (newE d { id := id + 1000, c := mk .acc, real := true } .acc) (id + 1000) [.addCheck, .addP, .addOpen, .addTable, .addReg]
           -- one end is closed again inside the op; the other end sees the peer's orderly close
           let d := if kind == "ok" then closeE (closeE d id .nil) (id + 1000) .eof
                    else closeE (closeE d (id + 1000) .nil) id .eof
@@ -446,7 +446,7 @@ partial def loop (h : IO.FS.Stream) (d : DS) : IO Unit := do
     | ["acc", id] =>
       let id := id.toNat!
       if (d.get id).isSome || !d.listen then bad else
-      let d := stepsE (newE d { id, c := mk .acc, peer := true } .acc) id [.addCheck, .addOpen, .addTable, .addReg]
+      let d := stepsE (newE d { id, c := mk .acc, peer := true } .acc) id [.addCheck, .addP, .addOpen, .addTable, .addReg]
       say d "acc" "nil" (some id)
     | [op, id] =>
       if op == "eof" || op == "rderr" then
